@@ -153,7 +153,12 @@ class QRun:
             return False
         self.ev.append({'op': 'clear', 'k': k, 'h': hid})
         if isinstance(w, asyncio.Future):
-            w.set_result(None)
+            # the coroutine handler ends normally, or is ended by the cancellation of what it awaits: either way its
+            # wait on the queue event is over
+            if (k + len(self.ev)) % 3 == 0:
+                w.cancel()
+            else:
+                w.set_result(None)
         else:
             w.clear()
         return True
